@@ -13,64 +13,9 @@
  *   observations of each context must equal the one it produces when its program runs alone.
  * Case args: hist: length, a1, a2, ...;   ctx: program pair, interleaving (bit mask: which context moves at each step).
  */
-#include "vf_relic.h"
+#include "ctx_battery.h"
 #include <sys/wait.h>
 #include <unistd.h>
-
-static unsigned long long transitions = 0;
-static uint64_t H;
-/* the battery is a list of labelled items; IT[i] = running hash after item i, so the first differing item can be named */
-#define MAXIT 96
-static uint64_t ITH[MAXIT]; static const char *ITL[MAXIT]; static int nit;
-static void item(const char *label) { if (nit < MAXIT) { ITH[nit] = H; ITL[nit] = label; nit++; } }
-static void hb(const void *p, size_t n) { H = vf_hash_bytes(H, p, n); }
-static void hi(long v) { hb(&v, sizeof v); }
-#define T_(stmt) do { int th_; VF_TRY(th_, stmt); hi(th_); } while (0)
-static const int EPS[] = {NIST_P256, BSI_P256, SECG_K256, SM2_P256, BN_P256, SM9_P256};
-static const int EBS[] = {NIST_B283, NIST_K283};
-#define NACT 11 /* 0..5 prime curves, 6..7 binary curves, 8 foreign dense prime, 9 heavy use, 10 fp_param_set of another prime then back through ep */
-static const char *ANAME[] = {"ep NIST_P256", "ep BSI_P256", "ep SECG_K256", "ep SM2_P256", "ep BN_P256 + twist D", "ep SM9_P256 + twist M", "eb NIST_B283", "eb NIST_K283", "fp dense foreign prime", "heavy use", "fp_param_set(BN_256)"};
-
-static void sel_ep(int i) { int th; VF_TRY(th, ep_param_set(EPS[i])); if (EPS[i] == BN_P256) VF_TRY(th, ep2_curve_set_twist(RLC_EP_DTYPE)); else if (EPS[i] == SM9_P256) VF_TRY(th, ep2_curve_set_twist(RLC_EP_MTYPE)); }
-static void sel_eb(int i) { int th; VF_TRY(th, eb_param_set(EBS[i])); }
-static void reseed(void) { uint8_t seed[64]; for (int i = 0; i < 64; i++) seed[i] = (uint8_t)(i * 5 + 3); core_get()->seeded = 0; rand_seed(seed, sizeof seed); }
-
-/* the observation battery: ep part (if a prime curve is validly selected), eb part (if a binary curve is selected) */
-static uint64_t battery(int have_ep, int have_eb) {
-	H = 0xcbf29ce484222325ULL; nit = 0; uint8_t buf[1600]; reseed();
-	if (have_ep) {
-		hi(ep_param_get()); hi(ep_curve_is_endom()); hi(ep_curve_is_super()); hi(ep_curve_is_pairf()); hi(ep_curve_is_ctmap()); hi(ep_curve_embed()); hi(ep_param_level()); hi(ep_curve_opt_a()); hi(ep_curve_opt_b()); hi(fp_param_get());
-		item("curve flags and level");
-		hi(fp_prime_get_qnr()); hi(fp_prime_get_cnr()); hi(fp_prime_get_2ad()); hi((long)fp_prime_get_mod8()); hi((long)fp_prime_get_mod18()); item("field residue constants (qnr, cnr, 2-adicity, mod 8, mod 18)");
-		/* the curve-family parameter and its sparse form are derived state of PAIRING curves only: observed there */
-		if (ep_curve_is_pairf()) { int l = 0; const int *sp = fp_prime_get_par_sps(&l); hi(l); if (sp && l > 0) hb(sp, (size_t)l * sizeof(int)); bn_t x; bn_new(x); fp_prime_get_par(x); bn_write_bin(buf, 40, x); hb(buf, 40); hi(bn_sign(x)); item("curve-family parameter and its sparse form"); }
-		fp_t a, b; fp_new(a); fp_new(b); fp_set_dig(a, 12345); T_(fp_inv(b, a)); fp_write_bin(buf, RLC_FP_BYTES, b); hb(buf, RLC_FP_BYTES); { int r = 0; T_(r = fp_srt(b, a)); hi(r); if (r) { fp_write_bin(buf, RLC_FP_BYTES, b); hb(buf, RLC_FP_BYTES); } } fp_set_dig(a, 7); { int r = 0; T_(r = fp_smb(a)); hi(r); }
-		{ bn_t e; bn_new(e); bn_set_2b(e, 100); bn_sub_dig(e, e, 3); T_(fp_exp(b, a, e)); fp_write_bin(buf, RLC_FP_BYTES, b); hb(buf, RLC_FP_BYTES); } item("field inverse, square root, symbol, exponentiation");
-		bn_t k, n, k2; bn_new(k); bn_new(n); bn_new(k2); ep_curve_get_ord(n); bn_write_bin(buf, RLC_FP_BYTES, n); hb(buf, RLC_FP_BYTES); bn_set_2b(k, 200); bn_sub_dig(k, k, 77); bn_sub_dig(k2, n, 5);
-		ep_t p, q, g; ep_new(p); ep_new(q); ep_new(g); ep_curve_get_gen(g);
-		#define EPH(P) do { int sz_ = 0; T_(sz_ = ep_size_bin(P, 0)); if (sz_ > 0 && sz_ < 200) { T_(ep_write_bin(buf, sz_, P, 0)); hb(buf, (size_t)sz_); } T_(sz_ = ep_size_bin(P, 1)); if (sz_ > 0 && sz_ < 200) { T_(ep_write_bin(buf, sz_, P, 1)); hb(buf, (size_t)sz_); } } while (0)
-		EPH(g); item("generator encoding (plain and compressed)"); T_(ep_mul_gen(p, k)); EPH(p); item("ep_mul_gen (generator table)"); T_(ep_mul_lwnaf(p, g, k)); EPH(p); item("ep_mul_lwnaf"); T_(ep_mul_lwreg(p, g, k2)); EPH(p); item("ep_mul_lwreg"); T_(ep_mul_monty(p, g, k)); EPH(p); item("ep_mul_monty"); T_(ep_mul_sim_gen(p, k, g, k2)); EPH(p); item("ep_mul_sim_gen"); T_(ep_mul_sim(q, g, k, p, k2)); EPH(q); item("ep_mul_sim");
-		{ static ep_t tab[RLC_EP_TABLE]; for (int i = 0; i < RLC_EP_TABLE; i++) ep_new(tab[i]); T_(ep_mul_pre(tab, p)); T_(ep_mul_fix(q, (const ep_t *)tab, k)); EPH(q); } item("ep_mul_pre / ep_mul_fix");
-		if (ep_curve_is_endom()) { T_(ep_psi(q, p)); EPH(q); item("ep_psi"); }
-		T_(ep_mul_cof(q, p)); EPH(q); item("ep_mul_cof"); T_(ep_map(q, (const uint8_t *)"abc", 3)); EPH(q); item("ep_map"); T_(ep_map_basic(q, (const uint8_t *)"abcd", 4)); EPH(q); item("ep_map_basic"); { int oc = 0; T_(oc = ep_on_curve(p)); hi(oc); }
-		/* decoding of a compressed point (sign rule) */
-		{ int sz = 0; T_(sz = ep_size_bin(p, 1)); if (sz > 0 && sz < 200) { T_(ep_write_bin(buf, sz, p, 1)); T_(ep_read_bin(q, buf, sz)); EPH(q); } } item("compressed point decoding");
-		{ fp2_t x, y; fp2_new(x); fp2_new(y); fp2_set_dig(x, 7); fp_set_dig(x[1], 9); T_(fp2_inv(y, x)); fp2_write_bin(buf, 2 * RLC_FP_BYTES, y, 0); hb(buf, 2 * RLC_FP_BYTES); T_(fp2_frb(y, x, 1)); fp2_write_bin(buf, 2 * RLC_FP_BYTES, y, 0); hb(buf, 2 * RLC_FP_BYTES); { int r = 0; T_(r = fp2_srt(y, x)); hi(r); } T_(fp2_mul_nor(y, x)); fp2_write_bin(buf, 2 * RLC_FP_BYTES, y, 0); hb(buf, 2 * RLC_FP_BYTES); } item("F_p^2 inverse, Frobenius, square root, non-residue multiplication");
-		if (ep_curve_is_pairf()) { hi(ep2_curve_is_twist()); hi(ep2_curve_opt_a()); hi(ep2_curve_opt_b()); item("twist flags");
-			g1_t g1; g2_t g2, r2; gt_t e; g1_new(g1); g2_new(g2); g2_new(r2); gt_new(e); g1_get_gen(g1); g2_get_gen(g2);
-			#define G2H(P) do { T_(g2_write_bin(buf, 4 * RLC_FP_BYTES + 1, P, 0)); hb(buf, 4 * RLC_FP_BYTES + 1); T_(g2_write_bin(buf, 2 * RLC_FP_BYTES + 1, P, 1)); hb(buf, 2 * RLC_FP_BYTES + 1); } while (0)
-			G2H(g2); T_(g2_mul_gen(r2, k)); G2H(r2); T_(g2_mul(r2, g2, k2)); G2H(r2); T_(ep2_frb(r2, r2, 1)); G2H(r2); T_(ep2_mul_cof(r2, r2)); G2H(r2); T_(g2_map(r2, (const uint8_t *)"abc", 3)); G2H(r2); { int v = 0; T_(v = g2_is_valid(r2)); hi(v); T_(v = g1_is_valid(p)); hi(v); } item("G2 generator, multiplications, Frobenius, cofactor, hashing, validity");
-			T_(pc_map(e, g1, g2)); T_(gt_write_bin(buf, 12 * RLC_FP_BYTES, e, 0)); hb(buf, 12 * RLC_FP_BYTES); T_(gt_exp_gen(e, k)); T_(gt_write_bin(buf, 12 * RLC_FP_BYTES, e, 0)); hb(buf, 12 * RLC_FP_BYTES); { int v = 0; T_(v = gt_is_valid(e)); hi(v); } item("pairing of the generators, gt_exp_gen, gt_is_valid"); T_(gt_get_gen(e)); T_(gt_write_bin(buf, 12 * RLC_FP_BYTES, e, 0)); hb(buf, 12 * RLC_FP_BYTES);
-			{ fp12_t f; fp12_new(f); T_(fp12_frb(f, e, 1)); T_(fp12_write_bin(buf, 12 * RLC_FP_BYTES, f, 0)); hb(buf, 12 * RLC_FP_BYTES); T_(fp12_inv(f, e)); T_(fp12_write_bin(buf, 12 * RLC_FP_BYTES, f, 0)); hb(buf, 12 * RLC_FP_BYTES); } item("gt_get_gen, F_p^12 Frobenius and inverse"); }
-	}
-	if (have_eb) { hi(eb_param_get()); hi(eb_curve_is_kbltz()); hi(eb_param_level()); hi(eb_curve_opt_a()); hi(eb_curve_opt_b()); bn_t k, n; bn_new(k); bn_new(n); eb_curve_get_ord(n); bn_write_bin(buf, RLC_FB_BYTES + 1, n); hb(buf, RLC_FB_BYTES + 1); bn_set_2b(k, 200); bn_sub_dig(k, k, 77);
-		eb_t p, g; eb_new(p); eb_new(g); eb_curve_get_gen(g);
-		#define EBH(P) do { T_(eb_write_bin(buf, 2 * RLC_FB_BYTES + 1, P, 0)); hb(buf, 2 * RLC_FB_BYTES + 1); T_(eb_write_bin(buf, RLC_FB_BYTES + 1, P, 1)); hb(buf, RLC_FB_BYTES + 1); } while (0)
-		EBH(g); T_(eb_mul_gen(p, k)); EBH(p); T_(eb_mul_lwnaf(p, g, k)); EBH(p); T_(eb_mul_lodah(p, g, k)); EBH(p); T_(eb_mul_halve(p, g, k)); EBH(p); T_(eb_map(p, (const uint8_t *)"abc", 3)); EBH(p);
-		{ fb_t a, b; fb_new(a); fb_new(b); fb_set_dig(a, 0x53); T_(fb_inv(b, a)); hb(b, sizeof(fb_st)); T_(fb_srt(b, a)); hb(b, sizeof(fb_st)); T_(fb_slv(b, a)); hb(b, sizeof(fb_st)); hi(fb_trc(a)); } item("binary curve: flags, generator, multiplications, hashing, field inverse / root / solve / trace"); }
-	{ int code = err_get_code(); hi(code); } item("sticky error code");
-	return H;
-}
 
 /* canonical state after a history */
 typedef struct { int ep, eb, ep_valid; } cstate;
